@@ -32,10 +32,23 @@ import (
 	"time"
 )
 
-const (
-	verifDir = "/verif"
-	repoDir  = "/repo"
-)
+const verifDir = "/verif"
+
+// repoDir is the tree the checks are built from: /repo, unless VERIF_REPO
+// names a scratch worktree (development aid for running seeded defects in parallel).
+var repoDir = "/repo"
+
+// replayDir is where replay files of violations go.
+var replayDir = "/verif/replays"
+
+func init() {
+	if d := os.Getenv("VERIF_REPO"); d != "" {
+		repoDir = d
+	}
+	if d := os.Getenv("VERIF_REPLAYS"); d != "" {
+		replayDir = d
+	}
+}
 
 type tierCfg struct {
 	runs      int
@@ -86,6 +99,8 @@ func init() {
 	addProp(&propCfg{id: "C02", quick: tierCfg{4000, 60, 25}, thorough: tierCfg{300000, 900, 200}})
 	addProp(&propCfg{id: "C03", quick: tierCfg{4000, 60, 25}, thorough: tierCfg{300000, 900, 200}})
 	addProp(&propCfg{id: "C12", quick: tierCfg{4000, 60, 25}, thorough: tierCfg{300000, 900, 200}})
+	addProp(&propCfg{id: "C11", quick: tierCfg{8000, 60, 25}, thorough: tierCfg{600000, 900, 200}})
+	addProp(&propCfg{id: "C13", quick: tierCfg{6000, 60, 25}, thorough: tierCfg{400000, 900, 200}})
 	addProp(&propCfg{id: "C16", race: true, quick: tierCfg{1500, 75, 50}, thorough: tierCfg{100000, 1200, 400}})
 	addProp(&propCfg{id: "C15", quick: tierCfg{4000, 60, 25}, thorough: tierCfg{400000, 900, 200}})
 }
@@ -663,7 +678,7 @@ func cmdCheck(args []string) int {
 	var reported []map[string]interface{}
 	knownHit := map[string]bool{}
 	sort.Slice(total.Violations, func(i, j int) bool { return total.Violations[i].Steps < total.Violations[j].Steps })
-	os.MkdirAll(filepath.Join(verifDir, "replays"), 0o755)
+	os.MkdirAll(replayDir, 0o755)
 	for _, v := range total.Violations {
 		c := class{v.Violation.Clause, v.Violation.Key}
 		if seen[c] || len(seen) >= 6 {
@@ -687,7 +702,7 @@ func cmdCheck(args []string) int {
 		rf.Tree = tree
 		final, _ = json.MarshalIndent(rf, "", " ")
 		name := fmt.Sprintf("%s-%s-%d.json", id, sanitize(rf.Violation.Clause+"-"+rf.Violation.Key), rf.Seed)
-		path := filepath.Join(verifDir, "replays", name)
+		path := filepath.Join(replayDir, name)
 		os.WriteFile(path, final, 0o644)
 		ok := 0
 		for i := 0; i < 2; i++ {
